@@ -625,6 +625,10 @@ func genC20(tier string, seed uint64, emit func(string)) {
 			emit(serveLine(cfg, [][]byte{b[:len(b)-len(p.reqs[len(p.reqs)-1])]}, script, floatTable(p.argvs...), ""))
 		}
 		emit(serveLine(cfg, [][]byte{b[:r.Intn(len(b)+1)]}, script, floatTable(p.argvs...), ""))
+		// the client goes away before a reply can be written: the k-th and every later write fails
+		if i%3 == 0 {
+			emit(serveLine(cfg+" wfail="+strconv.Itoa(1+r.Intn(len(p.reqs))), [][]byte{b}, script, floatTable(p.argvs...), ""))
+		}
 	}
 }
 
@@ -684,10 +688,17 @@ func oracleC20(c *serveCase, extra []string, res *serveResult) (string, []string
 			return fmt.Sprintf("fail:span %d left open", id), tags
 		}
 	}
-	frames, _ := refFrames(res.written)
-	// one root span per request value processed (plus the iteration that saw the end of the stream / the error)
-	if roots < len(frames) || roots > len(frames)+1 {
-		return fmt.Sprintf("fail:%d root spans for %d answered requests", roots, len(frames)), tags
+	// one root span per request value processed (plus the iteration that saw the end of the stream / the error);
+	// requests are counted by the replies the loop attempted to write (a write that fails because the client is
+	// gone still belongs to its request)
+	answered := 0
+	for _, e := range res.events {
+		if strings.HasPrefix(e, "wr:") {
+			answered++
+		}
+	}
+	if roots < answered || roots > answered+1 {
+		return fmt.Sprintf("fail:%d root spans for %d answered requests", roots, answered), tags
 	}
 	tags = append(tags, "roots"+bucket(roots))
 	return "ok", tags
